@@ -1,5 +1,6 @@
 import GoSQLXModel.Model.LexGen
 import GoSQLXModel.Proofs.LexEOF
+import GoSQLXModel.Proofs.LexSpell2
 /-!
 # C05 — Reported source positions point at the right characters
 
@@ -19,6 +20,15 @@ Proved (every classifier, table, input):
 * `locOf_one_based`, `locOf_line_mono`, `locOf_col_mono` — 1-based, and (line, column) is monotone in the offset;
 * `locOf_col_tabfree` — on a tab-free line the column is the byte distance from the line start plus one.
 Together: locations are non-decreasing along the stream.
+
+* `reference_grammar_spans` (from `tokenize_spell2`, `spans_slice`) — on the reference grammar of C04 (words, two-word
+  keywords, numbers, operators, quoted forms; blanks, comments or nothing between them) the i-th token's start and end
+  offsets are exactly where the i-th lexeme was written, whatever precedes it (comments, blank lines, multi-line
+  literals): cutting the input at the token's span gives back the lexeme's own bytes, and the end marker sits at the end
+  of the input.
+
+  Every comment's span is where the comment was written (`sepSpans`, `itemsCommentSpans`; a line comment's span
+  includes the newline that ends it).
 
 **Partial**: that a *parser* error is located at the offending token is decided dynamically (single-token corruptions
 through ParseFromModelTokensWithPositions); the Lean side covers the tokenizer.
@@ -63,6 +73,32 @@ theorem column_is_byte_distance (inp : Bytes) (off : Nat)
     (h : ∀ b ∈ (inp.take off).reverse.takeWhile (· != 10), b ≠ 9) :
     (locOf inp off).2 = 1 + ((inp.take off).reverse.takeWhile (· != 10)).length :=
   locOf_col_tabfree inp off h
+
+/-- **C05 (each element is located at its own characters)**: for every text of the reference grammar the token spans
+    are the lexemes' positions in the text, and cutting the text at a span yields the lexeme as written -/
+theorem reference_grammar_spans (cls : CharClass) (hA : AsciiOK cls) (lead : List Piece) (items : List Item2)
+    (hlead : lead.all Piece.ok = true) (hok : seqOK cls genLexTables items = true)
+    (hsize : (sepBytes lead ++ flat2 items).length ≤ genLexTables.maxInput) (hcount : items.length ≤ genLexTables.maxTokens) :
+    ∃ toks cs, tokenize cls genLexTables (sepBytes lead ++ flat2 items) = .ok toks cs ∧
+      toks.map Tok.span = spans (sepBytes lead).length items ++
+        [((sepBytes lead ++ flat2 items).length, (sepBytes lead ++ flat2 items).length)] ∧
+      (spans (sepBytes lead).length items).map
+        (fun se => ((sepBytes lead ++ flat2 items).drop se.1).take (se.2 - se.1)) = items.map (·.1.bytes) ∧
+      cs.map Comment.span = sepSpans 0 lead ++ itemsCommentSpans (sepBytes lead).length items := by
+  obtain ⟨toks, cs, h1, _, _, h4, h5⟩ := tokenize_spell2 cls genLexTables hA lead items hlead hok hsize hcount
+  exact ⟨toks, cs, h1, h4, spans_slice items (sepBytes lead), h5⟩
+
+/-- non-vacuity: a leading comment, a blank line, a literal that spans two lines, then `x`: every token is located at
+    its own first character (line 5, column 2 for `x`) -/
+def spanItems : List Item2 :=
+  [(.word (strBytes "select"), [.blanks [32]]), (.str [.ch 97, .ch 10, .ch 98], [.blanks [10, 32]]), (.word (strBytes "x"), [])]
+def spanLead : List Piece := [.line (strBytes " hi"), .blanks [10]]
+example : seqOK .ascii genLexTables spanItems = true := by decide +kernel
+example : sepBytes spanLead ++ flat2 spanItems = strBytes "-- hi\n\nselect 'a\nb'\n x" := by decide +kernel
+example : (spans (sepBytes spanLead).length spanItems).map (fun se => (locOf (sepBytes spanLead ++ flat2 spanItems) se.1,
+    locOf (sepBytes spanLead ++ flat2 spanItems) se.2)) = [((3, 1), (3, 7)), ((3, 8), (4, 3)), ((5, 2), (5, 3))] := by decide +kernel
+
+example : sepSpans 0 spanLead ++ itemsCommentSpans (sepBytes spanLead).length spanItems = [(0, 6)] := by decide +kernel
 
 /-! non-vacuity: the token after a comment and a blank line is located at its own first character -/
 def sample : Bytes := strBytes "-- hi\n\n  SELECT 1"
